@@ -521,6 +521,20 @@ pub fn c16_programs(tier: &str) -> Vec<Program> {
     v.extend(pick(fam::arc_family(1, 2, 1, 3, false, true, false), k));
     v.extend(pick(fam::leak_family(), k + 1));
     v.extend(pick(fam::stat_programs("quick").into_iter().filter(|p| p.threads.len() >= 3).collect(), k + 1));
+    // exploration controls: a skip_branch() that fires only in some iterations, a region
+    {
+        use crate::ir::*;
+        let o = atomics(2);
+        v.push(with_main(
+            "CTL-skip+region",
+            o.clone(),
+            vec![],
+            vec![vec![fadd(0, 0, MO::Sc), K::SkipBranch.when(0, Res::V(0)), K::StopExploring.into(), fadd(1, 0, MO::Sc), K::Explore.into()], vec![swap(0, 1, MO::Sc), swap(1, 2, MO::Sc)]],
+            vec![],
+            vec![],
+        ));
+        v.push(with_main("CTL-region", o, vec![], vec![vec![K::StopExploring.into(), fadd(1, 0, MO::Sc), K::Explore.into(), fadd(0, 0, MO::Sc)], vec![swap(0, 1, MO::Sc), swap(1, 2, MO::Sc)]], vec![], vec![]));
+    }
     v
 }
 
